@@ -346,6 +346,8 @@ class StmtMixin(object):
                 self.assume_type_invariant(st, st.env[name])
             elif isinstance(cur, SV) and not (isinstance(cur.sort, (SeqT, MapT, SetT)) and getattr(cur.sort, 'elem', getattr(cur.sort, 'k', 0)) is None):
                 if cur.sort == NONE:
+                    # initialised to None and reassigned in the loop: any value at the loop head (declare `locals` for a sort)
+                    st.env[name] = fresh(VAL, name)
                     continue
                 st.env[name] = fresh(cur.sort, name)
                 self.assume_type_invariant(st, st.env[name])
@@ -359,6 +361,18 @@ class StmtMixin(object):
             arrs = self.heap_arrays(st, key)
             if refs is None:
                 st.heap[key] = dict((suf, z3.Const(fresh_name('H.%s.%s' % (key, suf)), a.sort())) for suf, a in arrs.items())
+            elif key in self.fresh_only:
+                # objects created by earlier iterations may have changed: only the objects that existed at function entry keep
+                # the field (the invariant has to say the rest)
+                new = dict((suf, z3.Const(fresh_name('H.%s.%s' % (key, suf)), a.sort())) for suf, a in arrs.items())
+                entry_alloc = self.heap_arrays(st.old, self.alloc_key)['']
+                entry = self.heap_arrays(st.old, key)
+                fr = z3.Const(fresh_name('fl'), Ref)
+                keep = [z3.Select(new[suf], fr) == z3.Select(entry[suf], fr) for suf in arrs]
+                for r in refs:
+                    keep = [z3.Or(fr == r, kk) for kk in keep]
+                st.assume(z3.ForAll([fr], z3.Implies(z3.Select(entry_alloc, fr), z3.And(keep))))
+                st.heap[key] = new
             else:
                 new = dict(arrs)
                 for r in refs:
@@ -423,6 +437,7 @@ class StmtMixin(object):
                 for lbl, text in spec.inv.items():
                     self.oblige(st, 'invariant-preserved', 'loop%d:%s' % (k, lbl), self.spec_bool(text, st, extra2), text)
                 self.check_loop_frame(st, head_heap, havocked, k)
+                self.covers.append(('loop%d-body-reachable' % k, list(st.pc)))
                 raise PathEnd()
             if out[0] == 'break':
                 self.check_loop_frame(st, head_heap, havocked, k)
@@ -480,6 +495,7 @@ class StmtMixin(object):
                     d1 = self.spec_eval(spec.decreases, st).t
                     self.oblige(st, 'variant-decreases', 'loop%d' % k, z3.And(d0 >= 0, d1 < d0), spec.decreases)
                 self.check_loop_frame(st, head_heap, havocked, k)
+                self.covers.append(('loop%d-body-reachable' % k, list(st.pc)))
                 raise PathEnd()
             if out[0] == 'break':
                 return NORMAL
